@@ -1073,55 +1073,72 @@ mod vm {
         Ed { err: u64 },
         Preset { err: u64 },
     }
-    /// Run all ops in ONE script; after each op LOG $err (and LOGD the 64 output bytes of a recovery,
-    /// whose buffer is pre-filled with the signature bytes so that zeroing is observable).
-    pub fn run_seq(ops: &[SeqOp]) -> Result<Option<Vec<SeqObs>>, String> {
-        let mut script = vec![op::gtf_args(0x20, 0x00, GTFArgs::ScriptData), op::movi(0x10, 64)];
+    /// Run all ops in ONE script.  ALL operand registers of ALL ops are loaded (and output buffers
+    /// allocated and pre-filled with the signature bytes) BEFORE the first crypto instruction, because
+    /// almost every ALU instruction resets `$err`: between two consecutive ops only LOG / LOGD run, which
+    /// do not touch `$err`.  F_UNSAFEMATH is set once at the start so that the `$err`-preset step is a
+    /// single DIV by zero.  Around each op: LOG $err (before), the op, LOG $err (after), and LOGD of the
+    /// 64 output bytes for a recovery.  Returns (observations, $err logged immediately before each op).
+    pub fn run_seq(ops: &[SeqOp]) -> Result<Option<(Vec<SeqObs>, Vec<u64>)>, String> {
+        assert!(ops.len() <= 7, "at most 7 ops: 4 registers each");
+        const BASE: u8 = 0x10;
+        const TMP: u8 = 0x11;
+        const C64: u8 = 0x12;
+        let mut setup = vec![
+            op::gtf_args(BASE, 0x00, GTFArgs::ScriptData),
+            op::movi(C64, 64),
+            op::movi(TMP, 1), // F_UNSAFEMATH
+            op::flag(TMP),
+        ];
+        let mut body = vec![];
         let mut data: Vec<u8> = vec![];
+        let mut next_reg: u8 = 0x13;
         for o in ops {
             let off = data.len() as u32;
+            let (r0, r1, r2, r3) = (next_reg, next_reg + 1, next_reg + 2, next_reg + 3);
+            next_reg += 4;
+            body.push(op::log(RegId::ERR, RegId::ZERO, RegId::ZERO, RegId::ZERO));
             match o {
-                SeqOp::Rec { r1, sig, msg } => {
+                SeqOp::Rec { r1: is_r1, sig, msg } => {
                     data.extend_from_slice(sig);
                     data.extend_from_slice(msg);
-                    script.extend([
-                        op::movi(0x15, off),
-                        op::add(0x21, 0x20, 0x15),
-                        op::addi(0x22, 0x21, 64),
-                        op::aloc(0x10),
-                        op::move_(0x11, RegId::HP),
-                        op::mcpi(0x11, 0x21, 64),
-                        if *r1 { op::ecr1(0x11, 0x21, 0x22) } else { op::eck1(0x11, 0x21, 0x22) },
-                        op::log(RegId::ERR, RegId::ZERO, RegId::ZERO, RegId::ZERO),
-                        op::logd(RegId::ZERO, RegId::ZERO, 0x11, 0x10),
+                    // r0 = dst, r1 = sig, r2 = msg
+                    setup.extend([
+                        op::movi(TMP, off),
+                        op::add(r1, BASE, TMP),
+                        op::addi(r2, r1, 64),
+                        op::aloc(C64),
+                        op::move_(r0, RegId::HP),
+                        op::mcpi(r0, r1, 64),
                     ]);
+                    body.push(if *is_r1 { op::ecr1(r0, r1, r2) } else { op::eck1(r0, r1, r2) });
+                    body.push(op::log(RegId::ERR, RegId::ZERO, RegId::ZERO, RegId::ZERO));
+                    body.push(op::logd(RegId::ZERO, RegId::ZERO, r0, C64));
                 }
                 SeqOp::Ed { pk, sig, msg } => {
                     data.extend_from_slice(pk);
                     data.extend_from_slice(sig);
                     data.extend_from_slice(msg);
-                    script.extend([
-                        op::movi(0x15, off),
-                        op::add(0x21, 0x20, 0x15),
-                        op::addi(0x22, 0x21, 32),
-                        op::addi(0x23, 0x22, 64),
-                        op::movi(0x24, msg.len() as u32),
-                        op::ed19(0x21, 0x22, 0x23, 0x24),
-                        op::log(RegId::ERR, RegId::ZERO, RegId::ZERO, RegId::ZERO),
+                    // r0 = pk, r1 = sig, r2 = msg, r3 = len
+                    setup.extend([
+                        op::movi(TMP, off),
+                        op::add(r0, BASE, TMP),
+                        op::addi(r1, r0, 32),
+                        op::addi(r2, r1, 64),
+                        op::movi(r3, msg.len() as u32),
                     ]);
+                    body.push(op::ed19(r0, r1, r2, r3));
+                    body.push(op::log(RegId::ERR, RegId::ZERO, RegId::ZERO, RegId::ZERO));
                 }
                 SeqOp::PresetErr => {
-                    script.extend([
-                        op::movi(0x16, 1), // F_UNSAFEMATH
-                        op::flag(0x16),
-                        op::div(0x17, RegId::ONE, RegId::ZERO),
-                        op::flag(RegId::ZERO),
-                        op::log(RegId::ERR, RegId::ZERO, RegId::ZERO, RegId::ZERO),
-                    ]);
+                    body.push(op::div(r0, RegId::ONE, RegId::ZERO));
+                    body.push(op::log(RegId::ERR, RegId::ZERO, RegId::ZERO, RegId::ZERO));
                 }
             }
         }
         data.extend_from_slice(&ED19_FILLER);
+        let mut script = setup;
+        script.extend(body);
         script.push(op::ret(RegId::ONE));
         let rs = run(script, data)?;
         if !rs.iter().any(|r| matches!(r, Receipt::Return { .. })) {
@@ -1129,7 +1146,10 @@ mod vm {
         }
         let mut it = rs.iter().filter(|r| matches!(r, Receipt::Log { .. } | Receipt::LogData { .. }));
         let mut obs = vec![];
+        let mut before = vec![];
         for o in ops {
+            let Some(Receipt::Log { ra: b, .. }) = it.next() else { return Ok(None) };
+            before.push(*b);
             let Some(Receipt::Log { ra, .. }) = it.next() else { return Ok(None) };
             match o {
                 SeqOp::Rec { .. } => {
@@ -1140,7 +1160,7 @@ mod vm {
                 SeqOp::PresetErr => obs.push(SeqObs::Preset { err: *ra }),
             }
         }
-        Ok(Some(obs))
+        Ok(Some((obs, before)))
     }
     /// bytes placed after the message: ED19 with msg_len = 0 reads 32 bytes ("Backwards compatibility
     /// with old contracts", opcodes_impl.rs), so for an empty message these are what gets verified
@@ -1266,15 +1286,31 @@ fn c17_vm_seq(out: &mut Out, ops: &[vm::SeqOp], class: &str) -> Option<MCase> {
         }
         Ok(Some(o)) => o,
     };
+    let (obs, before) = obs;
+    // harness self-check: the $err left by op k-1 must still be there immediately before op k
+    // (otherwise the script wiped it and a history-dependence bug would be invisible)
+    let err_of = |x: &vm::SeqObs| match x {
+        vm::SeqObs::Rec { err, .. } | vm::SeqObs::Ed { err } | vm::SeqObs::Preset { err } => *err,
+    };
+    for k in 0..ops.len() {
+        let carried = if k == 0 { 0 } else { err_of(&obs[k - 1]) };
+        if before[k] != carried {
+            out.oracle_fail(
+                "vm-seq-harness-err-not-carried",
+                &format!("script {names:?} ({class}): $err was {carried} after op #{} but {} immediately before op #{k}: the harness script does not carry $err between the ops", k.wrapping_sub(1), before[k]),
+                rp.clone(),
+            );
+        }
+    }
+    if ops.len() >= 2 && err_of(&obs[0]) == 1 {
+        out.count("vm-seq-second-op-entered-with-err=1");
+    }
     let mut coq_ops = vec![];
     for (k, (o, got)) in ops.iter().zip(obs.iter()).enumerate() {
         let want = seq_expect(o).unwrap();
         if *got != want {
             // does the same op agree with the library when it runs alone? then the history is the cause
-            let alone = vm::run_seq(std::slice::from_ref(o)).ok().flatten().map(|v| v[0].clone());
-            let err_of = |x: &vm::SeqObs| match x {
-                vm::SeqObs::Rec { err, .. } | vm::SeqObs::Ed { err } | vm::SeqObs::Preset { err } => *err,
-            };
+            let alone = vm::run_seq(std::slice::from_ref(o)).ok().flatten().map(|v| v.0[0].clone());
             let cls = if matches!(o, vm::SeqOp::PresetErr) {
                 "vm-seq-preset-err-not-set"
             } else if alone.as_ref() == Some(&want) && err_of(got) != err_of(&want) {
